@@ -1,7 +1,7 @@
 #!/bin/bash
 # tools/confirm_seed.sh <ID> : in the agent's scratch worktree /tmp/wt-<ID>, confirm that the demo test
 # fails with the patch and passes without it, and that the crate's own suite passes with the patch.
-id="$1"; wt=/tmp/wt-$id
+id="$1"; wt=${WT:-/tmp/wt-$id}
 cd "$wt" || exit 2
 export CARGO_NET_OFFLINE=true
 git checkout -q -- src && git apply patch.diff || { echo "patch does not apply on clean src"; exit 2; }
